@@ -16,6 +16,7 @@ CONSTANTS
   PfMax = 2
   Eager = FALSE
   Journaling = FALSE
+  SlowStop = FALSE
 CHECK_DEADLOCK FALSE
 INVARIANTS
   NoPanic
